@@ -208,6 +208,38 @@ impl ParentReadyTracker {
     }
 }
 
+/// Read-only views for the out-of-tree verification harness.
+#[cfg(feature = "verif-hooks")]
+impl ParentReadyTracker {
+    /// Lowest slot still tracked.
+    pub(super) fn verif_root(&self) -> Slot {
+        self.root
+    }
+
+    /// All retained per-slot states in slot order:
+    /// `(slot, skip flag, notar-fallback hashes, ready parents, waiter registered)`.
+    #[allow(clippy::type_complexity)]
+    pub(super) fn verif_states(
+        &self,
+    ) -> Vec<(Slot, bool, Vec<crate::crypto::merkle::BlockHash>, Vec<BlockId>, bool)> {
+        let mut out: Vec<_> = self
+            .states
+            .iter()
+            .map(|(slot, state)| {
+                (
+                    *slot,
+                    state.is_skip_certified(),
+                    state.notar_fallback_blocks().collect(),
+                    state.ready_block_ids().to_vec(),
+                    state.verif_has_waiter(),
+                )
+            })
+            .collect();
+        out.sort_by_key(|e| e.0);
+        out
+    }
+}
+
 #[cfg(test)]
 mod tests {
     use super::*;
